@@ -25,7 +25,7 @@ RULE = ('InlineGen programs (ProgGen kernel interleaved with calls to generated 
         'call / statement-function / parameter reference from the kernel and both programs ran; distinct = hash of source+mode. '
         'Features with a known defect are enabled in dedicated 1/16 slices only (one hazard per case).')
 CASES = {'quick': 192, 'thorough': 3200}
-MIN_NONTRIVIAL = {'quick': 90, 'thorough': 1500}
+MIN_NONTRIVIAL = {'quick': 80, 'thorough': 1400}
 ANCHORS = ['loki/transformations/inline/procedures.py', 'loki/transformations/inline/functions.py',
            'loki/transformations/inline/constants.py', 'loki/transformations/inline/transformation.py',
            'loki/transformations/inline/mapper.py']
@@ -38,7 +38,7 @@ ASSUMPTIONS = ['gfortran 12 -O0 with run-time checks is the reference semantics'
                'real outputs compared to relative 1e-11',
                'recursion, sequence association and procedure pointers are not generated']
 BUDGET_S = {'quick': 1300, 'thorough': 3000}  # DEV
-CASE_TIMEOUT_S = 180
+CASE_TIMEOUT_S = 300
 
 MODES = ['marked', 'internal', 'functions', 'elemental', 'stmtfunc', 'constants', 'composed', 'composed']
 
@@ -359,7 +359,10 @@ def run_case(idx, rng, tier, ctx):
         if d['status'] == 'orig_bad':
             res['inconclusive'] = 'generator defect: ' + d['detail'][:400]
         elif d['status'] == 'new_build_fail':
-            viol('compile', d['detail'], new_text)
+            if 'TIMEOUT' in d['detail'] and 'Error' not in d['detail']:
+                res['inconclusive'] = 'compiler timed out on the transformed program'
+            else:
+                viol('compile', d['detail'], new_text)
         elif d['status'] == 'differ':
             if 'vs -999' in d['detail']:
                 res['inconclusive'] = 'transformed program timed out'
